@@ -29,7 +29,7 @@ KAPPA = 4.0
 
 def plan(tier, seed):
     n = 16 if tier == "quick" else 48
-    per = 30 if tier == "quick" else 90
+    per = 30 if tier == "quick" else 250
     return [{"kind": "bal", "sub": i, "cases": per} for i in range(n)]
 
 
